@@ -447,7 +447,7 @@ def run_c18_tv(tier, seed, only=None):
     if not build_tvdump():
         return 2, dict(jit_tv="tvdump did not build")
     items = []
-    for label, code in gen_corpus.gen_jit(seed):
+    for label, code in gen_corpus.gen_jit(seed) + gen_corpus.gen_opt(seed):
         h = hashlib.sha1(code.encode()).hexdigest()[:10]
         p = os.path.join(snips, f"jit_{re.sub(r'[^A-Za-z0-9_]', '_', label)}_{h}.veryl")
         if not os.path.exists(p):
@@ -663,18 +663,25 @@ def run_c03(tier, seed, write_evidence, only=None):
             outs = [m.get("port")]
         json.dump(dict(inputs=m["inputs"], outputs=outs), open(sp, "w"))
         rows = {}
-        for cname in ("default", m.get("config")):
+        # the model is replayed under EVERY toggle set: the property is violated when two sets disagree natively
+        for cname, cenv in cfgs:
             e = dict(os.environ)
-            e.update(cfg_env.get(cname, {}))
+            e.update(cenv)
             try:
                 p = subprocess.run([TVDUMP, "jitdiff", r["path"], m["top"], sp], capture_output=True, text=True,
                                    timeout=300, env=e)
                 rows[cname] = json.loads(p.stdout.strip().splitlines()[-1])
             except Exception as ex_:  # noqa: BLE001
                 rows[cname] = dict(error=str(ex_))
-        a, b = rows.get("default", {}), rows.get(m.get("config"), {})
-        differ = ("error" not in a and "error" not in b and
-                  (a.get("jit") != b.get("jit") or a.get("interpreter") != b.get("interpreter")))
+        good = {c: (json.dumps(v.get("jit"), sort_keys=True), json.dumps(v.get("interpreter"), sort_keys=True))
+                for c, v in rows.items() if "error" not in v}
+        a = rows.get("default", {})
+        other = next((c for c in good if good[c] != good.get("default")), None) if "default" in good else None
+        b = rows.get(other, {}) if other else rows.get(m.get("config"), {})
+        differ = other is not None
+        if differ:
+            rows = {"default": a, other: b, "toggle_sets_agreeing_with_default": [c for c in good if good[c] == good["default"]]}
+            m["config"] = other
         if differ:
             rp = os.path.join(ROOT, "evidence", "replay",
                               f"C03-{r['label'].replace('::', '_').replace('#', '_')}-{m['top']}.json")
